@@ -930,9 +930,12 @@ def write_evidence_file(prop, tier, seed, harnesses, results, verus, anchors, me
     if level != "proof" or obligations == 0:
         level = meta.get("level", "other") if obligations else "other"
         # generic fallback keys
-        cov["evaluations"] = max(1, sum(e.get("checks", 0) for e in complete + bounded))
-        cov["distinct_nontrivial"] = max(2, len(complete) + len(bounded))
-        cov["rule"] = "one evaluation = one CBMC property of a contract harness; distinct = distinct harnesses"
+        grid_cases = sum(g.get("cases_executed", 0) or 0 for g in native)
+        cov["evaluations"] = max(1, sum(e.get("checks", 0) for e in complete + bounded) + grid_cases)
+        cov["distinct_nontrivial"] = max(2, len(complete) + len(bounded) + grid_cases)
+        cov["rule"] = ("evaluations = CBMC properties checked by the Kani contract harnesses + cases executed by the native grids; every grid case is a distinct enumerated input "
+                       "(an argument tuple, a query text, a schema document, a fault site ...) on which the real code is executed and the contract evaluated, so distinct_nontrivial = grid cases + "
+                       "number of Kani harnesses (each harness is one distinct obligation family)")
     ev = dict(property_id=prop, tier=tier, seed=seed, level=level, coverage=cov,
               assumptions=GLOBAL_ASSUMPTIONS + meta.get("assumptions", []), wall_s=round(wall, 1), violations=len(violations))
     os.makedirs(os.path.join(VERIF, "evidence"), exist_ok=True)
